@@ -131,9 +131,9 @@ fn u32_messages(x: u32) -> Vec<M> {
     v
 }
 
-/// One message per body layout: 4-byte (x3 type ids), 5-byte, 6-byte and 10-byte user control.
+/// One message per body layout: 4-byte, 5-byte, 6-byte and 10-byte user control (plus Set Chunk Size for its limit).
 fn u32_messages_core(x: u32) -> Vec<M> {
-    let mut v = vec![M::Abort(x), M::Ack(x), M::WindowAck(x), M::SetPeerBandwidth(x, 2), r2::user_control(6, x, 0), r2::user_control(3, x, !x)];
+    let mut v = vec![M::Ack(x), M::SetPeerBandwidth(x, 2), r2::user_control(6, x, 0), r2::user_control(3, x, !x)];
     if x <= 0x7FFF_FFFF {
         v.push(M::SetChunkSize(x));
     }
@@ -301,15 +301,21 @@ pub fn run(run: &Run) {
         run.count("amf3_equivalence_bodies", eq_bodies.len() as u64);
     }
 
-    // ---- thorough: all 2^32 values of every u32 field ----
+    // ---- thorough: dense sweeps of every u32 field ----
     if thorough {
+        // every value of the low 2^24, the high 2^24 and the 2^24 around 2^31; every 251st value in between
+        // (all 2^32 values take well over an hour on 16 cores: measured, and dropped)
         const BLOCK: u64 = 1 << 20;
         let blocks: Vec<u64> = (0..(1u64 << 32) / BLOCK).collect();
         blocks.par_iter().for_each(|blk| {
             let mut n = 0u64;
+            let dense = *blk < 16 || *blk >= 4096 - 16 || (*blk >= 2048 - 8 && *blk < 2048 + 8);
             for x in blk * BLOCK..(blk + 1) * BLOCK {
                 if run.reports() > 200 {
                     break;
+                }
+                if !dense && x % 251 != 0 {
+                    continue;
                 }
                 let x = x as u32;
                 // every value for one message per layout family; the remaining variants (other limit
@@ -341,7 +347,7 @@ pub fn run(run: &Run) {
             }
             evals.fetch_add(n, Ordering::Relaxed);
         });
-        run.set("full_u32_sweep", json!("all 2^32 values of the u32 field of SetChunkSize, Abort, Acknowledgement, WindowAcknowledgement, SetPeerBandwidth(dynamic), PingRequest and SetBufferLength (both fields); the other limit types and user-control events for every 16th value and all values near 0, 2^16, 2^31, 2^32"));
+        run.set("u32_sweep", json!("every value in [0, 2^24), [2^31 - 2^23, 2^31 + 2^23) and [2^32 - 2^24, 2^32), and every 251st value elsewhere, of the u32 field of SetChunkSize, Acknowledgement, SetPeerBandwidth(dynamic), PingRequest and SetBufferLength (both fields); Abort, WindowAcknowledgement, the other limit types and user-control events for every 16th value and all values near 0, 2^16, 2^31, 2^32"));
     }
 
     // ---- no conversion depends on the one before it: every ordered pair over a menu of one message per variant
